@@ -86,7 +86,7 @@ Proof. unfold heap_fresh. intros H. apply max_ge in H. lia. Qed.
 (* ---------- the invariant: the caller's records keep their shape ------------------------------ *)
 
 Section Invariant.
-  Variable h0 : heap.
+  Context (h0 : heap).
 
   Definition R (h : heap) : Prop :=
     forall l r0, heap_get h0 l = Some r0 -> exists r, heap_get h l = Some r /\ rec_shape_eq r0 r.
@@ -469,7 +469,7 @@ Definition fin_body : featref * list qcit -> unit -> hexc unit :=
   fun '(feature_, citation) _ => _ <~ h_cits_assign feature_ citation ;; hret tt.
 
 Section Restore.
-  Variable h0 : heap.
+  Context (h0 : heap).
 
   Definition restored (h : heap) (l j : nat) : Prop :=
     forall c0, cits_at h0 l j = Some c0 -> cits_at h l j = Some c0.
